@@ -34,6 +34,13 @@ func (fr *frame) execBlock(b *ssa.BasicBlock, st *bstate) {
 				continue // havocked in loopHeader
 			}
 			fr.vals[x] = fr.phi(x, b)
+			for _, e := range x.Edges {
+				// a guarded map reference that survives a branch lives in a variable: the lock must still be held here
+				fr.guardedRefHandedOn(e, st, "kept in a variable", x.Pos())
+				if gr, ok := fr.guardedRefs[e]; ok {
+					fr.guardedRefs[x] = gr // and whatever the variable is handed to later is checked too
+				}
+			}
 		case *ssa.Alloc:
 			fr.alloc(x, st)
 		case *ssa.BinOp:
@@ -187,6 +194,11 @@ func (fr *frame) execBlock(b *ssa.BasicBlock, st *bstate) {
 			if a, isAlloc := x.Addr.(*ssa.Alloc); !isAlloc || fr.escaping[a] {
 				f.publish(fr.val(x.Val))
 			}
+			if _, ownCell := x.Addr.(*ssa.Alloc); ownCell {
+				fr.guardedRefHandedOn(x.Val, st, "stored in a variable", x.Pos())
+			} else {
+				fr.guardedRefHandedOn(x.Val, st, "copied to another location", x.Pos())
+			}
 			st.heap = f.store(st.heap, addr, pt.Elem(), fr.val(x.Val))
 			f.exact["Store"]++
 		case *ssa.Defer:
@@ -207,6 +219,9 @@ func (fr *frame) execBlock(b *ssa.BasicBlock, st *bstate) {
 			var vals []Val
 			for _, r := range x.Results {
 				vals = append(vals, fr.val(r))
+			}
+			for _, rv := range x.Results {
+				fr.guardedRefHandedOn(rv, st, "returned", x.Pos())
 			}
 			fr.beforeReturnAsserts(x, st, vals)
 			fr.rets = append(fr.rets, retState{st: &bstate{reach: st.reach, heap: st.heap, seg: st.seg}, vals: vals})
@@ -775,6 +790,7 @@ func (fr *frame) unop(x *ssa.UnOp, st *bstate) {
 			return
 		}
 		fr.checkGuardedAccess(x.X, st, false, x.Pos())
+		fr.checkGuardedMapEscape(x, st)
 		lv := f.load(st.heap, v, pt.Elem())
 		lv = f.nameVal("ld."+x.Name(), lv)
 		if lv.K == KRef && f.lastLoadKey != "" && !f.dirtyAll && !f.dirtyKey[f.lastLoadKey] && !strings.HasPrefix(f.lastLoadKey, "L") {
